@@ -1,7 +1,8 @@
 use std::collections::{BTreeMap};
 use std::borrow::Cow;
 
-use crate::resolve::IdMap;
+use indexmap::IndexMap;
+
 use crate::pos::{Sp, FileId};
 use crate::game::{Game, LanguageKey};
 use crate::diagnostic::{RootEmitter, Emitter};
@@ -25,7 +26,8 @@ pub struct Mapfile {
     pub timeline_ins_names: Vec<(i32, Sp<Ident>)>,
     pub timeline_ins_signatures: Vec<(i32, Sp<String>)>,
     pub difficulty_flags: Vec<(i32, Sp<String>)>,
-    pub enums: IdMap<Sp<Ident>, Vec<(i32, Sp<Ident>)>>,
+    /// (an ordered map; the enums are declared in this order, which decides the order of diagnostics)
+    pub enums: IndexMap<Sp<Ident>, Vec<(i32, Sp<Ident>)>>,
 
     /// Indicates that this mapfile contains builtin definitions.
     ///
